@@ -143,9 +143,9 @@ func evalC02(s c02State) string {
 		if cul != "" {
 			dir := "gained"
 			if base {
-				dir = "lost:" + why
+				dir = "lost"
 			}
-			return fail(dir+":"+histClass(s)+"|text@"+cul, "Is(e, r) was %v before and is %v after e:%s r:%s because the Error() text of a %s layer changed in transit (e=%q now %q; r=%q now %q)", base, got, s.EHist, s.RHist, cul, errText(e), errText(eh), errText(r), errText(rh))
+			return fail(dir+"|text@"+cul, "Is(e, r) was %v before and is %v after e:%s r:%s because the Error() text of a %s layer changed in transit (e=%q now %q; r=%q now %q)", base, got, s.EHist, s.RHist, cul, errText(e), errText(eh), errText(r), errText(rh))
 		}
 		if base {
 			return fail("lost:"+why+":"+histClass(s), "Is(e, r) held before (by %s) but not after e:%s r:%s (e=%q r=%q)", why, s.EHist, s.RHist, errText(e), errText(r))
@@ -258,7 +258,7 @@ func runC02(c *core.Ctx, r *core.Result) {
 		}
 		return
 	}
-	p := plan{fullDepth: 2, coreDepth: 3, strDepth: 2, alphabet: tm.REG}
+	p := plan{fullDepth: 2, coreDepth: 3, strDepth: 1, strCoreDepth: 3, alphabet: tm.REG}
 	subsetDepth := 1
 	if c.Thorough() {
 		p = plan{fullDepth: 3, coreDepth: 4, strDepth: 2, alphabet: tm.REG}
